@@ -215,6 +215,35 @@ def mc_reader(chk):
     chk.add_tlc(res, 'MC_FCSReader')
 
 
+def header_part(chk):
+    import io
+    import FlowCal.io
+    res = tlc.require_ok(tlc.run_tlc('Gen_C01H', 'SPECIFICATION Spec\nINVARIANT FieldsReadBack\n', dump=True), 'Gen_C01H')
+    chk.add_tlc(res, 'Gen_C01H')
+    for st in res.dump_states():
+        if st['stage'] != 100:
+            continue
+        out = st['out']
+        raw = bytes(out['f'])
+        try:
+            h = FlowCal.io.read_fcs_header_segment(io.BytesIO(raw))
+            obs = {'k': 'ok', 'v': [h.text_begin, h.text_end, h.data_begin, h.data_end, h.analysis_begin, h.analysis_end],
+                   'version': h.version}
+        except Exception as e:  # noqa
+            obs = {'k': 'refused', 'exc': type(e).__name__}
+        lab = None
+        if obs['k'] != out['k']:
+            lab = 'header-refused' if obs['k'] == 'refused' else 'header-accepted'
+        elif out['k'] == 'ok' and (obs['v'] != list(out['v']) or obs['version'] != 'FCS' + st['scn'][0]):
+            lab = 'header-fields'
+        wide = any(isinstance(v, int) and v >= 10000000 for v in st['scn'][1:])
+        chk.case(('h', json.dumps(st['scn'])), nontrivial=wide)
+        chk.traces += 1
+        if lab:
+            chk.violation('C01/header/%s/%s' % ('8-digit-offsets' if wide else 'narrow', lab), {'header_text': raw.decode('latin-1')},
+                          {'k': out['k'], 'v': list(out['v'])}, obs)
+
+
 def main(chk, replay=None):
     chk.rule = ('GEN: every layout of the enumerated slices (version x datatype x byte order spelling x 1..2 widths x range '
                 'kind x N x offset placement x end convention x padding; value patterns), non-trivial = loads >= 1 event or '
@@ -235,6 +264,7 @@ def main(chk, replay=None):
     if chk.quick:
         slices.append('float')
     mc_reader(chk)
+    header_part(chk)
     for sl in slices:
         gen_slice(chk, sl)
     trace_part(chk, 400 if chk.quick else 6000)
